@@ -848,6 +848,26 @@ pub fn c06_formula(rng: &mut Rng, i: usize, st: &mut Stats) -> GF {
             };
             st.hit("template.quant-over-iterate");
             GF::Fix(x, g.rng.chance(1, 2), Box::new(body))
+        } else if i % 8 == 3 && names.len() >= 2 {
+            // an inner fixed point on ANOTHER name carries the outer name across a quantifier:
+            //   lfp X # (base | lfp Y # (X | exists v # (Y & side)))   and the dual with gfp / & / forall / |
+            // (the outer name itself never stands below the quantifier, the inner one does)
+            let v = names[1].clone();
+            let w = names[names.len() - 1].clone();
+            let y = "Yin".to_string();
+            let greatest = rng.chance(1, 2);
+            let mut g = Gen { rng, names: names.clone(), allow_fix: false, big_consts: false, max_list: 2 };
+            let mut p = Pol::new();
+            p.insert(x.clone(), 1);
+            let base = if g.rng.chance(1, 2) { GF::Bin(0, Box::new(GF::Var(v.clone())), Box::new(GF::Var(w.clone()))) } else { g.gen(1, &p) };
+            let mut pq = Pol::new();
+            let side = if g.rng.chance(1, 2) { GF::Var(w.clone()) } else { g.gen(1, &pq.clone()) };
+            pq.clear();
+            let (outer_op, inner_op, ex) = if greatest { (0u8, 1u8, false) } else { (1u8, 0u8, true) };
+            let q = GF::Quant(ex, vec![v.clone()], Box::new(GF::Bin(inner_op, Box::new(GF::Var(y.clone())), Box::new(side))));
+            let inner = GF::Fix(y, greatest, Box::new(GF::Bin(outer_op, Box::new(GF::Var(x.clone())), Box::new(q))));
+            st.hit("template.inner-fixed-point-carries-the-outer-name-across-a-quantifier");
+            GF::Fix(x, greatest, Box::new(GF::Bin(outer_op, Box::new(base), Box::new(inner))))
         } else {
             let mut g = Gen { rng, names, allow_fix: true, big_consts: false, max_list: 3 };
             let mut p = Pol::new();
